@@ -78,7 +78,11 @@ func FindGrouping(n Node, name string, seen map[string]bool) *Grouping {
 			}
 		}
 		v = e.FieldByName("Include")
-		if v.IsValid() {
+		if v.IsValid() && !strings.Contains(name, ":") {
+			// (A name that still has a prefix is the name of a grouping of
+			// an imported module; a prefix means what the imports of the
+			// module or submodule it is written in say, not what those of
+			// an included submodule say.)
 			for _, i := range v.Interface().([]*Include) {
 				if i.Module == nil {
 					// The submodule could not be loaded.
